@@ -191,6 +191,27 @@ func CheckWiring(m *Model, inj int, v *Verdict, sec *Section, refs map[string]*T
 			w.errs = append(w.errs, "injector returned a non-nil error without any injected failure")
 		}
 	}
+	// a pointer-to-field must alias the field inside the provided struct
+	for k, ts := range w.obs {
+		e, ok := v.Set.Map[k]
+		if !ok || e.Src.Kind != "field" || !e.Src.FieldPtr || len(ts) == 0 {
+			continue
+		}
+		pk := m.K(m.S.Items[e.Src.Item].Parent)
+		ps := w.obs[pk]
+		if len(ps) == 0 {
+			continue
+		}
+		st := ps[0].Deref()
+		if st == nil || st.K != "struct" || len(st.FA) != len(st.FN) {
+			continue
+		}
+		for i, n := range st.FN {
+			if n == e.Src.FieldName && ts[0].ID != st.FA[i] {
+				w.errs = append(w.errs, fmt.Sprintf("the provided pointer to field %s does not alias the field inside the provided struct (pointer id %d, field address id %d)", n, ts[0].ID, st.FA[i]))
+			}
+		}
+	}
 	// one instance per type: every consumer of a type sees the very same value
 	for k, ts := range w.obs {
 		for i := 1; i < len(ts); i++ {
